@@ -107,70 +107,8 @@ def key_write_rules(ctx, m, op_roots, k1="K1-key-price", k3="K3-queue-time"):
     return n_key
 
 
-def run(ctx):
-    m = Model(ctx)
-    stamp = stamp_fn(m)
-    if stamp is not None:
-        from .c05 import stamp_rules
-        stamp_rules(ctx, m, prefix="K3-stamp")
-    ts, roots, _ld = run_typestate(ctx, m)
-
-    # ---------------------------------------------------------------- K1 / K3: key writes
-    key_builders = KEY_BUILDERS
-    op_roots = [f_ for f_ in m.book_pub_fns() if f_.params and f_.params[0] == "self"]
-    n_key = key_write_rules(ctx, m, op_roots)
-    ctx.check(n_key >= 4, "K1-key-price", "census", "-", "%d live key writes analysed" % n_key)
-    # creation: key = side key-builder(order.price) for the side the order is created on (judged on the views of
-    # create_order specialised to either value of its side parameter: the builder may be chosen in a helper)
-    create = m.book_fn("create_order")
-    for S in ("Bid", "Ask"):
-        cq = m.sv(create, S)
-        live = cq.cfg.reach_from(0)
-        kb = [c for c in cq.calls(tuple(key_builders)) if c.b in live]
-        ctx.check(len(kb) >= 1 and all(key_builders[c.name] == S for c in kb), "K1-key-price", "create|builders|" + S, ctx.loc(create),
-                  "create_order builds the key of a %s order with the %s-side key-builder" % (S, S),
-                  "create_order builds the key of a %s order with %s" % (S, sorted({c.name for c in kb}) or "no key-builder"))
-        for c in kb:
-            a_price = c.arg_named("price")
-            ok = a_price is not None and a_price[0] == "field" and a_price[2] == "price"
-            ctx.check(ok, "K1-key-price", "create|" + S, c.loc(), "create_order: %s-side key from the new order's own price" % S,
-                      "create_order: %s(%s)" % (c.name, render(a_price) if a_price else "?"))
-        pushes = [c for c in cq.calls("push") if c.b in live and fld(c.args[0], m.f_orders)]
-        ctx.check(len(pushes) == 1, "K1-key-price", "create|push|" + S, ctx.loc(create), "create_order stores exactly one entry")
-        if len(pushes) == 1:
-            ent = pushes[0].args[1]
-            ok = ent[0] == "agg" and ent[2].endswith("OrderEntry::OrderEntry")
-            if ok:
-                fields = dict(zip(ent[4], ent[3]))
-                korig = fields["key"]
-                alts = korig[1] if korig[0] == "phi" else (korig,)
-                oalts = fields["order"][1] if fields["order"][0] == "phi" else (fields["order"],)
-
-                def of_stored_order(x):
-                    # the key's price operand is `<o>.price` with <o> the stored order (or one of its joined alternatives)
-                    return same(x, fields["order"]) or any(same(x, o) for o in oalts)
-                ok = all(a[0] == "call" and a[4] in key_builders and key_builders[a[4]] == S and a[2][1][0] == "field" and a[2][1][2] == "price" and of_stored_order(a[2][1][1]) for a in alts)
-                # the stored order itself is made by the constructors of side S
-                ctors = [y[4] for o in oalts for y in walk(o) if y[0] == "call" and y[4] in ("buy_limit", "buy_market", "sell_limit", "sell_market")]
-                ok = ok and bool(ctors) and all(("buy" in c_) == (S == "Bid") for c_ in ctors)
-            ctx.check(ok, "K1-key-price", "create|entry|" + S, pushes[0].loc(), "the stored entry pairs the %s order with the key built from that order's price" % S,
-                      "the stored entry's key is not built from the stored order's price (or the order is not built by the %s-side constructors)" % S)
-    # price writes: only where the key is rebuilt afterwards
-    for (f, q) in [(f_, m.sv(f_, S_)) for f_ in op_roots for S_ in ("Bid", "Ask")]:
-        for pw in q.writes(field="price", owner="Order"):
-            E = pw.addr[1]
-            X = E[1] if E[0] == "field" and E[2] == "order" else None
-            kws = [w for w in q.writes(field="key", owner="OrderEntry") if X is not None and same(w.addr[1], X) and q.cfg.can_reach(pw.b, w.b)]
-            ins = [c for (c, _s) in m.side_op_calls(q, "insert_order") if q.cfg.can_reach(pw.b, c.b)]
-            ok = bool(kws) and all(any(q.body.dominates(w.b, c.b) for w in kws) for c in ins)
-            ctx.check(ok, "K1-key-price", "price-write|" + f.short(), pw.loc(), "price rewrite is followed by a key rebuild before every re-insertion",
-                      "order price rewritten (%s) but a later insertion is not dominated by a key rebuild" % pw.text())
-
-    # ---------------------------------------------------------------- K2
-    c02.wrappers(ctx, m)
-    c02.lockstep(ctx, m)       # the priority map is keyed (key.1, key.2) -> id; queries read its FIRST entry
-    c02.writeback(ctx, m)      # the working copy of the order is stored back on every modifying path
-
+def matching_loop_rules(ctx, m, RULE="K4-loop"):
+    """loop condition / exits / termination / progress / fresh best price of every matching-loop context (side views)"""
     # ---------------------------------------------------------------- K4 matching loops
     # (judged on the side-specialised whole-operation views of place_order / modify_order: the loop may be written once per
     #  passive side, or once for both with the passive side chosen from the aggressor's side, and its condition may live in
@@ -183,7 +121,7 @@ def run(ctx):
             for (h_, sd_, c_) in m.ov_matching_loops(q_):
                 if h_ in live_:
                     loopsites.append((q_, h_, sd_, c_, root_, S_))
-    ctx.check(len(loopsites) >= 2 and {x[2] for x in loopsites} == {"Bid", "Ask"}, "K4-loop", "matchers", "-",
+    ctx.check(len(loopsites) >= 2 and {x[2] for x in loopsites} == {"Bid", "Ask"}, RULE, "matchers", "-",
               "%d matching-loop contexts over both passive sides" % len(loopsites), "expected matching loops over both passive sides, found %s" % sorted({x[2] for x in loopsites}))
     tw_paths = {t_[0].path for t_ in m.trade_writers()}
 
@@ -202,7 +140,7 @@ def run(ctx):
                 g += [a for a in x_.guards if a not in g]
         vol_atoms = [a for a in g if a[0] == "cmp" and a[1] in ("gt", "ne") and a[2][0] == "field" and a[2][2] == "vol" and a[3][0] == "const" and a[3][3] == 0
                      and is_agg(a[2])]
-        ctx.check(len(vol_atoms) >= 1, "K4-loop", pre + "|vol", c.loc(), "passive order acquired only while aggressor.vol > 0",
+        ctx.check(len(vol_atoms) >= 1, RULE, pre + "|vol", c.loc(), "passive order acquired only while aggressor.vol > 0",
                   "loop condition lacks `aggressor.vol > 0` (conditions: %s)" % c.gtext())
         price_ok = False
         for a in g:
@@ -215,7 +153,7 @@ def run(ctx):
                 else:
                     if hi[0] == "call" and hi[4] == "best_price" and "BidSide" in hi[1] and lo[0] == "field" and lo[2] == "price" and is_agg(lo):
                         price_ok = True
-        ctx.check(price_ok, "K4-loop", pre + "|limit", c.loc(),
+        ctx.check(price_ok, RULE, pre + "|limit", c.loc(),
                   "passive order acquired only while the limit admits the best %s price (%s)" % (r.lower(), "limit >= best ask" if r == "Ask" else "limit <= best bid"),
                   "loop condition lacks the non-strict limit test against the %s side's best price (conditions: %s)" % (r, c.gtext()))
         # the best price the limit is tested against is CURRENT: nothing may change the passive side between the query and
@@ -236,14 +174,14 @@ def run(ctx):
                 others = [y.b for y in bps if y.b != x.b]
                 if S_blk in q.cfg.reach_from(x.b, cut_blocks=[y for y in others if y != S_blk]):
                     fresh = q.cfg.pure_path(x.b, S_blk, cut=tuple(others))
-                    ctx.check(fresh, "K4-loop", pre + "|fresh-best-price", x.loc(), "the best %s price tested by the loop is read with nothing in between that changes the side" % r.lower(),
+                    ctx.check(fresh, RULE, pre + "|fresh-best-price", x.loc(), "the best %s price tested by the loop is read with nothing in between that changes the side" % r.lower(),
                               "the %s side can change (an order removed / volume taken) between this best_price() query and the loop's limit test: the limit is tested against a stale price" % r)
         # same entity in both atoms
         if vol_atoms and price_ok:
             e1 = vol_atoms[0][2][1]
             e2s = [a for a in g if a[0] == "cmp" and a[1] == "le"]
             ent_ok = any(same(x[1], e1) for a in e2s for x in (a[2], a[3]) if x[0] == "field" and x[2] == "price")
-            ctx.check(ent_ok, "K4-loop", pre + "|same-order", c.loc(), "volume and limit tests refer to the same (aggressor) order")
+            ctx.check(ent_ok, RULE, pre + "|same-order", c.loc(), "volume and limit tests refer to the same (aggressor) order")
 
         def is_best(x):
             return x[0] == "call" and x[4] == "best_price" and (r + "Side") in x[1]
@@ -318,9 +256,9 @@ def run(ctx):
                     if srcs:
                         ok = True
                         why = "next passive id is None: " + " / ".join(sorted(set(srcs)))
-            ctx.check(ok, "K4-loop", "%s|exit-bb%d" % (pre, 0 if ok else b), q.loc(t.sp),
+            ctx.check(ok, RULE, "%s|exit-bb%d" % (pre, 0 if ok else b), q.loc(t.sp),
                       "loop exit: %s" % why, "matching loop can be left for another reason: %s" % (" && ".join(render_atom_safe(a) for a in (atoms or [])) or t.k))
-        ctx.check(len(exits) >= 1, "K4-loop", pre + "|exits", c.loc(), "%d loop exits analysed" % len(exits))
+        ctx.check(len(exits) >= 1, RULE, pre + "|exits", c.loc(), "%d loop exits analysed" % len(exits))
         # termination: when the opposite side is empty (best_order_idx is None) the loop must be LEFT – otherwise a
         # market order (whose sentinel price always admits the empty side's sentinel best price) spins forever
         none_edges = []
@@ -343,16 +281,84 @@ def run(ctx):
                         none_edges.append((b, s2))
         outside = [x for x in range(len(q.body.blocks)) if x not in body]
         leaves = bool(none_edges) and all(s2 not in body or head not in q.cfg.reach_from(s2, cut_blocks=outside) for (_b, s2) in none_edges)
-        ctx.check(leaves, "K4-loop", pre + "|empty-side-exit", c.loc(), "when the %s side is empty (no best order) the matching loop is left" % r.lower(),
+        ctx.check(leaves, RULE, pre + "|empty-side-exit", c.loc(), "when the %s side is empty (no best order) the matching loop is left" % r.lower(),
                   "with the %s side empty the loop is not left (no path from the `None` arm leaves it before the next iteration): an unfillable market order never terminates" % r.lower())
         # progress: every iteration that acquires a passive order calls the trade writer (fill >= 1 by K5 / vol > 0)
         tw = [x for x in q.calls() if x.b in body and x.target is not None and x.target.path in tw_paths]
         succ_c = [x for x in q.body.succs(c.b) if not q.body.blocks[x].cleanup]
         prog_ok = bool(tw) and bool(succ_c) and (head not in q.cfg.reach_from(succ_c[0], cut_blocks=set(outside) | {x.b for x in tw} | {s2 for (_b, s2) in none_edges if s2 != head}))
-        ctx.check(prog_ok, "K4-loop", pre + "|progress", c.loc(), "every iteration either fills (trade writer called) or leaves the loop",
+        ctx.check(prog_ok, RULE, pre + "|progress", c.loc(), "every iteration either fills (trade writer called) or leaves the loop",
                   "an iteration can return to the loop head without a fill and without leaving")
         # aggressor side = opposite(r) in every calling context
         # (the typestate runs on whole-operation views: the contexts are the fills it meets, see `K4-fill-sides` below)
+
+
+def run(ctx):
+    m = Model(ctx)
+    stamp = stamp_fn(m)
+    if stamp is not None:
+        from .c05 import stamp_rules
+        stamp_rules(ctx, m, prefix="K3-stamp")
+    ts, roots, _ld = run_typestate(ctx, m)
+
+    # ---------------------------------------------------------------- K1 / K3: key writes
+    key_builders = KEY_BUILDERS
+    op_roots = [f_ for f_ in m.book_pub_fns() if f_.params and f_.params[0] == "self"]
+    n_key = key_write_rules(ctx, m, op_roots)
+    ctx.check(n_key >= 4, "K1-key-price", "census", "-", "%d live key writes analysed" % n_key)
+    # creation: key = side key-builder(order.price) for the side the order is created on (judged on the views of
+    # create_order specialised to either value of its side parameter: the builder may be chosen in a helper)
+    create = m.book_fn("create_order")
+    for S in ("Bid", "Ask"):
+        cq = m.sv(create, S)
+        live = cq.cfg.reach_from(0)
+        kb = [c for c in cq.calls(tuple(key_builders)) if c.b in live]
+        ctx.check(len(kb) >= 1 and all(key_builders[c.name] == S for c in kb), "K1-key-price", "create|builders|" + S, ctx.loc(create),
+                  "create_order builds the key of a %s order with the %s-side key-builder" % (S, S),
+                  "create_order builds the key of a %s order with %s" % (S, sorted({c.name for c in kb}) or "no key-builder"))
+        for c in kb:
+            a_price = c.arg_named("price")
+            ok = a_price is not None and a_price[0] == "field" and a_price[2] == "price"
+            ctx.check(ok, "K1-key-price", "create|" + S, c.loc(), "create_order: %s-side key from the new order's own price" % S,
+                      "create_order: %s(%s)" % (c.name, render(a_price) if a_price else "?"))
+        pushes = [c for c in cq.calls("push") if c.b in live and fld(c.args[0], m.f_orders)]
+        ctx.check(len(pushes) == 1, "K1-key-price", "create|push|" + S, ctx.loc(create), "create_order stores exactly one entry")
+        if len(pushes) == 1:
+            ent = pushes[0].args[1]
+            ok = ent[0] == "agg" and ent[2].endswith("OrderEntry::OrderEntry")
+            if ok:
+                fields = dict(zip(ent[4], ent[3]))
+                korig = fields["key"]
+                alts = korig[1] if korig[0] == "phi" else (korig,)
+                oalts = fields["order"][1] if fields["order"][0] == "phi" else (fields["order"],)
+
+                def of_stored_order(x):
+                    # the key's price operand is `<o>.price` with <o> the stored order (or one of its joined alternatives)
+                    return same(x, fields["order"]) or any(same(x, o) for o in oalts)
+                ok = all(a[0] == "call" and a[4] in key_builders and key_builders[a[4]] == S and a[2][1][0] == "field" and a[2][1][2] == "price" and of_stored_order(a[2][1][1]) for a in alts)
+                # the stored order itself is made by the constructors of side S
+                ctors = [y[4] for o in oalts for y in walk(o) if y[0] == "call" and y[4] in ("buy_limit", "buy_market", "sell_limit", "sell_market")]
+                ok = ok and bool(ctors) and all(("buy" in c_) == (S == "Bid") for c_ in ctors)
+            ctx.check(ok, "K1-key-price", "create|entry|" + S, pushes[0].loc(), "the stored entry pairs the %s order with the key built from that order's price" % S,
+                      "the stored entry's key is not built from the stored order's price (or the order is not built by the %s-side constructors)" % S)
+    # price writes: only where the key is rebuilt afterwards
+    for (f, q) in [(f_, m.sv(f_, S_)) for f_ in op_roots for S_ in ("Bid", "Ask")]:
+        for pw in q.writes(field="price", owner="Order"):
+            E = pw.addr[1]
+            X = E[1] if E[0] == "field" and E[2] == "order" else None
+            kws = [w for w in q.writes(field="key", owner="OrderEntry") if X is not None and same(w.addr[1], X) and q.cfg.can_reach(pw.b, w.b)]
+            ins = [c for (c, _s) in m.side_op_calls(q, "insert_order") if q.cfg.can_reach(pw.b, c.b)]
+            ok = bool(kws) and all(any(q.body.dominates(w.b, c.b) for w in kws) for c in ins)
+            ctx.check(ok, "K1-key-price", "price-write|" + f.short(), pw.loc(), "price rewrite is followed by a key rebuild before every re-insertion",
+                      "order price rewritten (%s) but a later insertion is not dominated by a key rebuild" % pw.text())
+
+    # ---------------------------------------------------------------- K2
+    c02.wrappers(ctx, m)
+    c02.lockstep(ctx, m)       # the priority map is keyed (key.1, key.2) -> id; queries read its FIRST entry
+    c02.writeback(ctx, m)      # the working copy of the order is stored back on every modifying path
+
+    # ---------------------------------------------------------------- K4 matching loops
+    matching_loop_rules(ctx, m)
     # aggressor and passive order of every fill are on opposite sides (typestate side attribute at each trade-writer call)
     tws = {f_.path for (f_, _c) in m.trade_writers()}
     n_fill = 0
